@@ -412,3 +412,110 @@ def c14_spec(seed, k, corp, hash_seeds, soak=False):
     return {"property": "C14", "kind": "daemon", "hash_seed": r.choice(hash_seeds), "origin": "soak" if soak else "random", "k": k,
             "knobs": dict({"step_clock": r.chance(0.1), "do_timing": do_timing, "clock_jumps": clock_jumps(r)}, **sched_knobs(r)),
             "session": sess}
+
+
+# ----------------------------------------------------------------------------------------------
+# Directed (enumerated) batches: small, fixed, complete over what they name.  They complement the seeded search the way
+# the C10 fault sweep does: every corpus entry at least once, every known-related pair in both orders and under every
+# calling style, every name/module-sensitive entry under every hash seed, every malformed line once, and a handful of
+# fixed thread schedules (only a SUT that runs more than one thread ever consumes those).
+_STALL_PLANS = [[1] * 40, [0, 1] * 20, [1, 0] * 20, [0, 0, 1, 1] * 10, [2, 1, 0] * 14, [0, 1, 1, 1] * 10]
+
+
+def _chunks(seq, n):
+    return [seq[i:i + n] for i in range(0, len(seq), n)]
+
+
+def c10_directed_specs(corp, hash_seeds):
+    specs = []
+    base = [e for e in corp.entries if e.get("n", 0) == 0]
+    for ci, chunk in enumerate(_chunks(base, 12)):
+        ops = [_op(e, {"append_version": False}) for e in chunk]
+        specs.append({"property": "C10", "kind": "api", "hash_seed": 0, "origin": "directed", "label": "corpus-pass-%d" % ci,
+                      "knobs": {"step_clock": True}, "ops": ops})
+    for a, b in _SIBLINGS:
+        if a in corp.by_id and b in corp.by_id and (a.startswith("K/") or b.startswith("K/")):
+            ops = [_op(corp.by_id[a], {"append_version": False}), _op(corp.by_id[b], {"append_version": False}),
+                   _op(corp.by_id[a], {"append_version": False})]
+            specs.append({"property": "C10", "kind": "api", "hash_seed": 0, "origin": "directed", "label": "pair %s -> %s" % (a, b),
+                          "knobs": {"step_clock": True}, "ops": ops})
+    return specs
+
+
+def c11_directed_specs(corp, hash_seeds):
+    specs = []
+    for a, b in _SIBLINGS:
+        if a not in corp.by_id or b not in corp.by_id:
+            continue
+        for style in ("obj", "none", "shared"):
+            ops = []
+            for ident in (a, b, a):
+                op = _op(corp.by_id[ident], {}, opt_style=style)
+                op["src_style"] = "shared" if style == "shared" else "dict"
+                if op["src_style"] == "shared":
+                    op["src_id"] = ident
+                ops.append(op)
+            specs.append({"property": "C11", "kind": "api", "hash_seed": 0, "origin": "directed",
+                          "label": "pair %s -> %s (%s)" % (a, b, style), "knobs": {"step_clock": False, "do_timing": False},
+                          "shared_options": {}, "ops": ops})
+    # everything that names modules, functions or devices, first thing in a process, under every hash seed
+    sens = [e for e in corp.entries if e.get("n", 0) == 0 and (e["family"] in ("L", "D") or e["id"].startswith(("M/prefix", "M/batch", "M/named", "K/lib", "R/script", "E/library")))]
+    for h in hash_seeds:
+        for ci, chunk in enumerate(_chunks(sens, 10)):
+            ops = []
+            for e in chunk:
+                op = _op(e, {"remove_labels": True, "inline_functions": False} if ci % 2 else {}, opt_style="obj")
+                op["src_style"] = "dict"
+                ops.append(op)
+            specs.append({"property": "C11", "kind": "api", "hash_seed": h, "origin": "directed", "label": "names@%d-%d" % (h, ci),
+                          "knobs": {"step_clock": False, "do_timing": False}, "shared_options": {}, "ops": ops})
+    return specs
+
+
+def c14_directed_specs(corp, hash_seeds):
+    specs = []
+
+    def sess(lines, label, client=None, end="exit", knobs=None, **kw):
+        s = {"lines": lines, "client": client or {"mode": "lockstep", "window": 1}, "end": end, "chunking": {"mode": "whole"},
+             "stdin_errors": "surrogateescape", "stderr_capacity": 4096, "thief": []}
+        s.update(kw)
+        kn = {"step_clock": False, "do_timing": False}
+        kn.update(knobs or {})
+        specs.append({"property": "C14", "kind": "daemon", "hash_seed": 0, "origin": "directed", "label": label, "knobs": kn, "session": s})
+
+    def req(e, opts=None, **kw):
+        ln = {"kind": "request", "entry": e["id"], "raw": C.request_line(e["src"], opts or {}), "constexpr": bool(e.get("constexpr"))}
+        ln.update(kw)
+        return ln
+
+    ks = [e for e in corp.by_family.get("K", []) if e.get("n", 0) == 0 and "_shifted" not in e["id"]]
+    for ci, chunk in enumerate(_chunks(ks, 14)):
+        sess([req(e) for e in chunk], "K-pass-%d" % ci)
+    junk = []
+    for jid, raw in C.family_J(0):
+        if isinstance(raw, dict):
+            raw = bytes.fromhex(raw["hex"]).decode("utf-8", "surrogateescape")
+        junk.append({"kind": "junk", "entry": jid, "raw": raw})
+    plain = [corp.by_id[i] for i in ("M/int_small", "M/enum_operand", "O/plain", "D/define") if i in corp.by_id]
+    for ci, chunk in enumerate(_chunks(junk, 12)):
+        lines = []
+        for j, ln in enumerate(chunk):
+            lines.append(ln)
+            if j % 3 == 2:
+                lines.append(req(plain[(ci + j) % len(plain)]))
+        sess(lines, "J-pass-%d" % ci)
+        sess([dict(l) for l in lines], "J-pass-%d-pipelined" % ci, client={"mode": "pipelined", "window": 4, "eager_end": True}, end="eof")
+    # line terminators and empty lines
+    crlf = []
+    for j, e in enumerate(plain + plain):
+        crlf.append(req(e, term="\r\n"))
+        if j % 2:
+            crlf.append({"kind": "empty", "entry": "empty", "raw": "", "term": "\r\n"})
+    sess(crlf, "crlf-lockstep")
+    sess([dict(l) for l in crlf], "crlf-pipelined-eof", client={"mode": "pipelined", "window": 3, "eager_end": False}, end="eof")
+    # fixed thread schedules (consumed only by a daemon that runs more than one thread / several pending callbacks)
+    three = [req(e) for e in plain[:3]]
+    for pi, plan in enumerate(_STALL_PLANS):
+        for pe in (300, 3000):
+            sess([dict(l) for l in three], "schedule-%d/%d" % (pi, pe), knobs={"sched": plan, "preempt_every": pe})
+    return specs
